@@ -6,6 +6,10 @@ props = [json.loads(l) for l in open(os.path.join(V, "properties.jsonl"))]
 BASELINE = "cd /repo && go build ./... && go test -vet=off -count=1 -timeout 25m ./..."
 
 CHECKS = {
+ "C05": dict(cat="model_checking",
+   text="Part A: TLC enumerates every operator string with up to the cfg's number of operators that mixes built-in operators with a registered infix operator of each level 1..13 (plus a second one at a neighbouring level), a registered prefix and a registered postfix operator; the transcribed parser model configured with these operators must group every string by level - WFX, a declarative operator-precedence well-formedness on the documented level scale, written without reference to the parsing algorithm - and each string is replayed on a real parser built with the same registrations, TLC (Trace_C05) judging the real tree (yield, WFX; level-1 operators reported) and comparing it with the model. Part B: the registration bookkeeping is the TLA+ machine XjsBuilder; TLC explores every history of RegisterTokenType / Register{Prefix,Infix,Postfix}Operator calls up to the cfg's length (invariants: ids fresh, injective, stable; a refusal changes nothing); every maximal history is replayed on a real builder pair with a parser built and probed after every call, and TLC judges the REAL replies against the declarative clause (one stable id per name, distinct from built-ins; refused iff the role is taken by the built-in grammar or an earlier registration) and that a refused registration leaves the probe results unchanged; the final parser is compared with the model configured by the machine.",
+   note="Trusted: WFX as the meaning of 'groups like a left-associative built-in operator of that level'; the role table of the built-in grammar; TLC.",
+   tech="TLA+ state machine of the builders + transcribed parser with registered operators; TLC exhaustive operator strings and registration histories; replay on real builders/parsers; TLC validation of recorded trees, replies and probe results", ref="DESIGN.md 5 C05"),
  "C12": dict(cat="fault_enumeration",
    text="XjsFaults defines the fault space on rendered programs of XjsPrograms (every single-token deletion, every removal of a statement separator, every truncation after a token inside an open bracket or block, every truncation inside a string/backtick literal; MC_C12L additionally cuts literals with escapes - escaped quote, escaped backslash, other quote - at every byte offset); TLC enumerates programs x faults, records the verdict of the transcribed parser/lexer model and exports every corrupted token list with the index of the last intact token; reference parsers (V8 and acorn) keep the corrupted texts that are no longer JavaScript (and whose original is); the real strict parser is run on each and TLC (Trace_C12) judges the real errors: at least one, the first not before the last intact token.",
    note="Trusted: V8 and acorn as the meaning of 'valid JavaScript' (both must reject the corrupted text and accept the original); the mechanical token-to-text spelling. Positions are compared with the real lexer's token list.",
